@@ -64,18 +64,23 @@ def run(ctx):
     # ------------------------------------------------------------ L-MTU
     g = cfg(send_pci)
     guard = None
+    acc = prog.method("PciSession", "mtu")
+    mtu_accessor_ok = dep.has_field(dep.origins(acc, ["cp", [0, []]], at=(cfg(acc).returns[0], len(acc.stmts(cfg(acc).returns[0])))), "Network", "mtu") if cfg(acc).returns else False
     for bb in range(len(send_pci.blocks)):
         if send_pci.is_cleanup(bb) or send_pci.term(bb)[0] != "switch":
             continue
         info = K.compare_info(send_pci, bb)
         if not info:
             continue
-        oa, ob = dep.origins(send_pci, info["a"]), dep.origins(send_pci, info["b"])
+        oa, ob = dep.origins(send_pci, info["a"], at=K.at_term(send_pci, bb)), dep.origins(send_pci, info["b"], at=K.at_term(send_pci, bb))
         is_len = lambda o: dep.has_call(o, "message::{impl#0}::len") and dep.has_param(o, "message")
-        is_mtu = lambda o: dep.has_field(o, "Network", "mtu") and not dep.has_call(o, "message::{impl#0}::len")
+        # the MTU: the field itself or the accessor PciSession::mtu() (whose body is checked to return network.mtu)
+        is_mtu = lambda o: (dep.has_field(o, "Network", "mtu") or (mtu_accessor_ok and dep.has_call(o, "pci_session::{impl#0}::mtu"))) and not dep.has_call(o, "message::{impl#0}::len")
         extra_ops = lambda o: {a[1] for a in o if a[0] == "op"}
         if (is_len(oa) and is_mtu(ob)) or (is_len(ob) and is_mtu(oa)):
             guard = (bb, info, is_len(oa), extra_ops(oa) | extra_ops(ob))
+            pl = F.op_place(info["a"]) or F.op_place(info["b"])
+            cmp_ty = send_pci.local_tystr(pl[0]) if pl is not None and not pl[1] else "?"
     spawns = K.calls_to(send_pci, "tokio::task::spawn::spawn")
     dels = K.aggregates(send_pci, DELIVERY)
     ctx.require(len(spawns) == 1 and len(dels) == 1, "send_pci: expected one tokio::spawn and one Delivery construction (found %d, %d)" % (len(spawns), len(dels)))
@@ -93,6 +98,8 @@ def run(ctx):
             x_is_len = (x is info["a"]) == len_is_a
             if op == "Le" and x_is_len:
                 pass_succ = s
+        if cmp_ty not in ("usize", "u64", "u128", "?"):
+            probs.append("the length is compared with the MTU as %s: message.len() is truncated first, so a frame of 65536 + k bytes passes for k <= mtu" % cmp_ty)
         if ops - {"Gt", "Lt", "Le", "Ge"}:
             probs.append("the compared quantities are modified by %s before the comparison" % sorted(ops))
         if pass_succ is None:
